@@ -521,4 +521,115 @@ theorem comps_join_wd (wd name : Str) (hw : ∀ c ∈ splitOnChar '/' wd, plain 
   unfold comps
   exact splitOnChar_append_sep wd name
 
+
+/-! ### `open` with the depth limit -/
+
+theorem direct_ne_outOfFuel (root : Dir) (p : Str) : direct root p ≠ .outOfFuel := by
+  unfold direct
+  cases findNode root (comps p) with
+  | none => simp
+  | some x => cases x <;> simp
+
+theorem openWith_ne_outOfFuel (l : Nat) (root : Dir) (fuel : Nat) (p : Str) : openWith (some l) root fuel p ≠ .outOfFuel := by
+  unfold openWith
+  simp only
+  cases openAt root (l + 1) p <;> simp
+
+/-- With the limit, every symlink cycle is refused with the clean error. -/
+theorem openWith_cycle {root : Dir} {k : Nat} {p : Str} (l fuel : Nat) (h : HopsTo root (k + 1) p p) :
+    openWith (some l) root fuel p = .tooManyLinks := by
+  unfold openWith
+  simp only [openAt_cycle h (l + 1)]
+
+/-- With the limit, a chain of at most `l` links is followed to its end. -/
+theorem openWith_chain {root : Dir} {k : Nat} {p q : Str} (l fuel : Nat) (h : HopsTo root k p q) (ht : Terminal root q)
+    (hk : k ≤ l) : openWith (some l) root fuel p = direct root q := by
+  unfold openWith
+  obtain ⟨m, hm⟩ : ∃ m, l + 1 = (m + 1) + k := ⟨l - k, by omega⟩
+  have e : openAt root (l + 1) p = direct root q := by rw [hm, openAt_hopsTo h, openAt_terminal_eq ht]
+  simp only [e]
+  have := direct_ne_outOfFuel root q
+  cases hd : direct root q <;> simp_all
+
+/-- … and a chain of more than `l` links is refused even when it has no loop (as a kernel does with ELOOP). -/
+theorem openWith_deep {root : Dir} {k : Nat} {p q : Str} (l fuel : Nat) (h : HopsTo root k p q) (hk : l < k) :
+    openWith (some l) root fuel p = .tooManyLinks := by
+  unfold openWith
+  obtain ⟨q', hq'⟩ := hopsTo_prefix h (l + 1) (by omega)
+  simp only [openAt_exact_fuel hq']
+
+
+/-! ### `ReadDir` with a read offset meets the io/fs paging contract -/
+
+theorem rdOffset_eq (all : List Info) (n : Nat) (hn : 0 < n) : ∀ k, rdOffset all (n : Int) k = min (k * n) all.length := by
+  intro k
+  induction k with
+  | zero => simp [rdOffset]
+  | succ k ih =>
+    simp only [rdOffset, ih, readDirStep]
+    have h1 : ¬ ((n : Int) ≤ 0) := by omega
+    simp only [h1, ↓reduceIte, Int.toNat_natCast, List.isEmpty_iff, List.drop_eq_nil_iff, List.length_drop]
+    by_cases hlen : all.length ≤ min (k * n) all.length
+    · simp only [hlen, ↓reduceIte]
+      have : all.length ≤ k * n := by omega
+      rw [Nat.succ_mul]; omega
+    · simp only [hlen, ↓reduceIte]
+      rw [Nat.succ_mul]; omega
+
+/-- The `k`-th of successive `ReadDir(n)` calls, `n > 0`, on a handle with an offset: exactly the next chunk, and
+    `io.EOF` exactly when nothing is left. -/
+theorem readDirStep_spec (all : List Info) (n : Nat) (hn : 0 < n) (k : Nat) :
+    (readDirStep all (rdOffset all (n : Int) k) (n : Int)).1 = readDirSpec all n k := by
+  rw [rdOffset_eq all n hn k]
+  have h1 : ¬ ((n : Int) ≤ 0) := by omega
+  simp only [readDirStep, h1, ↓reduceIte, Int.toNat_natCast, readDirSpec]
+  by_cases hlen : all.length ≤ k * n
+  · have e1 : min (k * n) all.length = all.length := by omega
+    have d1 : all.drop all.length = [] := by simp
+    have d2 : all.drop (k * n) = [] := by simp [hlen]
+    simp [e1, d1, d2]
+  · have e1 : min (k * n) all.length = k * n := by omega
+    have hne : (all.drop (k * n)).isEmpty = false := by
+      cases hd : all.drop (k * n) with
+      | nil => rw [List.drop_eq_nil_iff] at hd; omega
+      | cons a as => rfl
+    rw [e1]
+    simp only [hne, Bool.false_eq_true, ↓reduceIte, Prod.mk.injEq, true_and]
+    cases hd : all.drop (k * n) with
+    | nil => simp [hd] at hne
+    | cons a as =>
+      cases n with
+      | zero => omega
+      | succ n => simp
+
+/-- `ReadDir(n ≤ 0)`: the first call returns everything, every later call nothing, never an error. -/
+theorem readDirStep_all (all : List Info) (n : Int) (hn : n ≤ 0) :
+    (readDirStep all 0 n).1 = (all, false) ∧ ∀ k, (readDirStep all (rdOffset all n (k + 1)) n).1 = ([], false) := by
+  have off : ∀ k, rdOffset all n (k + 1) = all.length := by
+    intro k; simp [rdOffset, readDirStep, hn]
+  refine ⟨by simp [readDirStep, hn], fun k => ?_⟩
+  rw [off k]
+  simp [readDirStep, hn]
+
+
+/-- The path a view with working directory `wd` looks `name` up at, for plain components: `wd/name`. -/
+theorem join_wd_plain (wd name : Str) (hw : ∀ c ∈ splitOnChar '/' wd, plain c) (hn : ∀ c ∈ splitOnChar '/' name, plain c) :
+    pathJoin [pathClean wd, name] = wd ++ '/' :: name := by
+  have hwne : wd ≠ [] := by
+    intro e; subst e; have := hw [] (by simp [splitOnChar]); exact this.1 rfl
+  rw [pathClean_plain wd hw]
+  have hall : ∀ c ∈ splitOnChar '/' (wd ++ '/' :: name), plain c := by
+    rw [splitOnChar_append_sep]
+    intro c hc
+    rcases List.mem_append.mp hc with h | h
+    · exact hw c h
+    · exact hn c h
+  have e : pathJoin [wd, name] = pathClean (wd ++ '/' :: name) := by
+    simp [pathJoin, List.dropWhile, hwne, joinWith]
+  rw [e, pathClean_plain _ hall]
+
+theorem join_root_plain (name : Str) (hn : ∀ c ∈ splitOnChar '/' name, plain c) : pathJoin [pathClean [], name] = name := by
+  have h1 := congrArg (joinWith ['/']) (comps_join_valid name hn)
+  simpa only [comps, joinWith_splitOnChar] using h1
+
 end PlzVerif.CASFS
